@@ -28,6 +28,7 @@ type Case struct {
 	Nav     *NavCase     `json:"nav,omitempty"`
 	Visits  *VisitCase   `json:"visits,omitempty"`
 	DictQ   *DictCase    `json:"dictq,omitempty"`
+	DVQ     *DVCase      `json:"dvq,omitempty"`
 	Reuse   *ReuseCase   `json:"reuse,omitempty"`
 	DMT     *DMTCase     `json:"dmt,omitempty"`
 	Hist    *HistCase    `json:"hist,omitempty"`
